@@ -3,6 +3,7 @@ pub mod conn_enum;
 pub mod framing;
 pub mod head;
 pub mod headers;
+pub mod response;
 
 pub fn run(args: &Args, out: Out) {
     match args.driver.as_str() {
@@ -10,6 +11,11 @@ pub fn run(args: &Args, out: Out) {
         "head-gen" => head::run_gen(args, out),
         "head-splits" => head::run_splits(args, out),
         "head-tcp" => head::run_tcp(args, out),
+        "resp-gen" => response::run_gen(args, out),
+        "chunk-lens" => response::run_chunk_lens(args, out),
+        "chunk-gen" => response::run_chunk_gen(args, out),
+        "resp-faults" => response::run_faults(args, out),
+        "status-all" => response::run_status(args, out),
         "headers-enum" => headers::run_enum(args, out),
         "ascii-ctors" => headers::run_ctors(args, out),
         "framing-gen" => framing::run_gen(args, out),
